@@ -164,9 +164,17 @@ fn lower_attributes(list: Option<cst::AttributeList>) -> Vec<ast::Attribute> {
         list.attributes()
             .map(|attr| {
                 let syntax = attr.syntax();
+                // The node also holds the trivia that follow the closing `]`; a comment there (or
+                // between the attribute's tokens) is not part of the attribute.
+                let text: String = syntax
+                    .descendants_with_tokens()
+                    .filter_map(|element| element.into_token())
+                    .filter(|token| token.kind() != MySyntaxKind::Comment)
+                    .map(|token| token.text().to_string())
+                    .collect();
                 ast::Attribute {
                     ast: MySyntaxNodePtr::new(syntax),
-                    text: syntax.text().to_string(),
+                    text,
                 }
             })
             .collect()
